@@ -247,7 +247,7 @@ Fixpoint vruns_bytes_c (prev : option vrun) (rs : list vrun) : res str :=
   end.
 Definition vline_bytes_c (l : vline) : res str :=
   do x <- vruns_bytes_c None (vl_runs l);
-  Ok ((match vl_voice l with [] => [] | v => [60;118;32] ++ v ++ [62] end) ++ x ++ [10]).
+  Ok ((match vl_voice l with [] => [] | v => [60;118;32] ++ voice_esc v ++ [62] end) ++ x ++ [10]).
 Fixpoint vlines_bytes_c (ls : list vline) : res str :=
   match ls with
   | [] => Ok []
